@@ -285,6 +285,8 @@ class PropertyRun:
                         confirmed = self.replay_counter_model(rep.qualname, c, cfg, ob, seen, scope=None)
                 if not confirmed:
                     confirmed = self.small_scope_refute(rep.qualname, c, cfg, cname, seen)
+                if not confirmed and obs and hasattr(c, 'random_inputs'):
+                    confirmed = self.boundscheck_refute(rep.qualname, c, cfg, obs)
                 if confirmed:
                     continue
                 for ob in obs:
@@ -330,16 +332,24 @@ class PropertyRun:
         concrete and small and recording semantics for assumed callables (complete for that scope);
         a sat obligation there yields a genuine input, replayed on the real function"""
         from .contract import verify_function
+        # refutation is an extra: it runs inside a time budget per check (a concrete scope of a deep loop nest can
+        # unroll into very many paths); what it does not reach stays undecided
+        if not hasattr(self, 'small_scope_deadline'):
+            self.small_scope_deadline = time.time() + {'quick': 150, 'thorough': 900}.get(self.tier, 150)
         for scope in c.scopes(cfg):
+            if time.time() > self.small_scope_deadline:
+                self.small_scope_cut = getattr(self, 'small_scope_cut', 0) + 1
+                break
+            dl = min(self.small_scope_deadline, time.time() + {'quick': 60, 'thorough': 300}.get(self.tier, 60))
             try:
                 if getattr(c, 'is_fragment', False):
                     from .contract import verify_fragment
-                    r2 = verify_fragment(self.world, c, only_cfg=cname, scope=scope)
+                    r2 = verify_fragment(self.world, c, only_cfg=cname, scope=scope, deadline=dl)
                 else:
-                    r2 = verify_function(self.world, c, only_cfg=cname, scope=scope)
+                    r2 = verify_function(self.world, c, only_cfg=cname, scope=scope, deadline=dl)
             except Exception:
                 continue
-            smt.discharge(r2.obligations, tier='quick', seed=self.seed)
+            smt.discharge(r2.obligations, tier='refute', seed=self.seed)
             self.small_scope_runs = getattr(self, 'small_scope_runs', 0) + 1
             for ob in r2.obligations:
                 if ob.result == 'sat' and ob.kind not in ('loop-pres', 'assumed-pattern'):
@@ -403,6 +413,31 @@ class PropertyRun:
             if len(self.replay_errors) < 3:
                 self.replay_errors.append(traceback.format_exc()[-800:])
         return False
+
+    def boundscheck_refute(self, qualname, c, cfg, obs):
+        """undischarged obligations of a numba kernel: look for an input on which an array access leaves its array,
+        running the kernel's own statements as plain Python with every subscript checked (vf/boundscheck.py)"""
+        from . import boundscheck
+        try:
+            pyfn = self.world.bind.resolve(qualname)
+            hit = boundscheck.fuzz(pyfn, c, cfg, seed=self.seed, budget_s={'quick': 45, 'thorough': 300}.get(self.tier, 45),
+                                   tries={'quick': 300, 'thorough': 3000}.get(self.tier, 300))
+        except Exception:
+            self.replay_errors = getattr(self, 'replay_errors', [])
+            if len(self.replay_errors) < 3:
+                self.replay_errors.append(traceback.format_exc()[-800:])
+            return False
+        if not hit:
+            return False
+        shown, msg = hit
+        idx_obs = [o for o in obs if o.kind == 'index'] or obs
+        ob = idx_obs[0]
+        info = {'property': self.pid, 'obligation': ob.name, 'function': qualname, 'cfg': cfg,
+                'boundscheck': {'seed': self.seed, 'inputs': shown, 'observed': msg},
+                'solver': {'result': ob.result, 'backend': ob.backend, 'seconds': round(ob.seconds or 0, 3), 'detail': str(ob.detail)[:200]}}
+        path = self.write_replay(info)
+        self.violations.append({'what': '%s: %s on %s' % (ob.name, msg, shown[:300]), 'replay': path, 'finding': None, 'obligation': ob.name})
+        return True
 
     def replay_injected(self, qualname, c, cfg, ob, seen):
         """refuted exceptional postcondition on a path on which an assumed callable raised (an injected environment
@@ -884,6 +919,8 @@ class PropertyRun:
         if getattr(self, 'vc_cached', 0):
             cov['vc_results_reused'] = ('%d function(s): obligations generated and discharged earlier in this checkout for the same repository '
                                         'sources, verifier code, tier and seed (by the check of another property) were reused' % self.vc_cached)
+        if getattr(self, 'small_scope_cut', 0):
+            cov['small_scope_refutation_cut_by_budget'] = self.small_scope_cut
         if getattr(self, 'replay_errors', None):
             cov['replay_errors'] = self.replay_errors
             for e_ in self.replay_errors[:2]:
@@ -1007,6 +1044,16 @@ def replay_file(pid, path):
     from .concrete import check_concrete, from_json
     from .models import FACTORIES
     world = build_world(plan)
+    if 'boundscheck' in info:
+        from . import boundscheck
+        c = world.contracts[info['function']]
+        hit = boundscheck.fuzz(world.bind.resolve(info['function']), c, info['cfg'], seed=info['boundscheck'].get('seed', 0), tries=3000, budget_s=300)
+        if hit:
+            print("  still violates: %s on %s" % (hit[1], hit[0][:300]))
+            print("VIOLATION property=%s replay=%s" % (pid, path))
+            return 1
+        print("replay: every array access of the kernel stays inside its array on the stored input family (current tree)")
+        return 0
     if 'injected' in info:
         c = world.contracts[info['function']]
         viol = c.replay_injected(info['cfg'], info['injected'].get('raised'), info['injected'].get('site'))
